@@ -1,6 +1,8 @@
 package main
 
 import (
+	"fmt"
+	"os"
 	"go/token"
 	"go/types"
 	"sort"
@@ -266,6 +268,7 @@ func (ex *Exec) preserveLocals(fr *Frame, pc Term, old, cur State, keys map[stri
 			}
 		}
 	}
+	ex.preservePrivateFreeVars(fr, old, cur, keys, c)
 }
 
 func (f *Frame) allocAddrs() map[*ssa.Alloc]*Addr {
@@ -276,4 +279,213 @@ func (f *Frame) allocAddrs() map[*ssa.Alloc]*Addr {
 		}
 	}
 	return out
+}
+
+// ---- captured variables that only a family of function literals can reach ----
+
+// captureFamily: for a free variable of a function literal, the set of functions
+// (the declaring function and every literal that captures the same variable) that
+// can hold the variable's address; nil when the address may travel anywhere else.
+func (g *Global) captureFamily(fv *ssa.FreeVar) map[*ssa.Function]bool {
+	if g.famCache == nil {
+		g.famCache = map[*ssa.FreeVar]map[*ssa.Function]bool{}
+	}
+	if f, ok := g.famCache[fv]; ok {
+		return f
+	}
+	g.famCache[fv] = nil
+	lit := fv.Parent()
+	if lit == nil || lit.Parent() == nil {
+		return nil
+	}
+	idx := -1
+	for i, x := range lit.FreeVars {
+		if x == fv {
+			idx = i
+		}
+	}
+	// the cell: the binding of fv in the MakeClosure that creates lit
+	var cell *ssa.Alloc
+	n := 0
+	var scan func(fn *ssa.Function)
+	scan = func(fn *ssa.Function) {
+		for _, b := range fn.Blocks {
+			for _, in := range b.Instrs {
+				if mc, ok := in.(*ssa.MakeClosure); ok && mc.Fn == lit && idx < len(mc.Bindings) {
+					n++
+					if al, ok := mc.Bindings[idx].(*ssa.Alloc); ok {
+						cell = al
+					} else {
+						cell = nil
+						n = 99
+					}
+				}
+			}
+		}
+		for _, a := range fn.AnonFuncs {
+			scan(a)
+		}
+	}
+	scan(lit.Parent())
+	if cell == nil || n != 1 {
+		return nil
+	}
+	fam := map[*ssa.Function]bool{cell.Parent(): true}
+	var ok func(v ssa.Value) bool
+	ok = func(v ssa.Value) bool {
+		refs := v.Referrers()
+		if refs == nil {
+			return false
+		}
+		for _, r := range *refs {
+			switch r := r.(type) {
+			case *ssa.Store:
+				if r.Val == v {
+					return false
+				}
+			case *ssa.UnOp:
+				if r.Op != token.MUL {
+					return false
+				}
+			case *ssa.DebugRef:
+			case *ssa.FieldAddr:
+				if !ok(r) {
+					return false
+				}
+			case *ssa.IndexAddr:
+				if r.X != v || !ok(r) {
+					return false
+				}
+			case *ssa.MakeClosure:
+				cfn, isFn := r.Fn.(*ssa.Function)
+				if !isFn {
+					return false
+				}
+				for i, b := range r.Bindings {
+					if b == v {
+						// the literal's value must stay inside its parent (only ever called there),
+						// so that nobody else can run it on this activation's variables
+						if i >= len(cfn.FreeVars) || !onlyCalled(r) || !ok(cfn.FreeVars[i]) {
+							return false
+						}
+						fam[cfn] = true
+					}
+				}
+			default:
+				return false
+			}
+		}
+		return true
+	}
+	if !ok(cell) {
+		return nil
+	}
+	// the declaring function itself is not a member: a callee that reaches it starts a new
+	// activation with its own variables
+	delete(fam, cell.Parent())
+	g.famCache[fv] = fam
+	return fam
+}
+
+// reachesAny: some function of the set is reachable from fn in the call graph.
+func (g *Global) reachesAny(fn *ssa.Function, set map[*ssa.Function]bool) bool {
+	seen := map[*ssa.Function]bool{}
+	var dfs func(f *ssa.Function) bool
+	dfs = func(f *ssa.Function) bool {
+		if set[f] {
+			return true
+		}
+		if seen[f] {
+			return false
+		}
+		seen[f] = true
+		node := g.cg.Nodes[f]
+		if node == nil {
+			return false
+		}
+		for _, e := range node.Out {
+			if e.Callee != nil && e.Callee.Func != nil && dfs(e.Callee.Func) {
+				return true
+			}
+		}
+		// function literals created here may be run by whoever receives them
+		for _, a := range f.AnonFuncs {
+			if dfs(a) {
+				return true
+			}
+		}
+		return false
+	}
+	return dfs(fn)
+}
+
+// preservePrivateFreeVars: while a function literal is verified on its own, a
+// variable it captured keeps its value across a call that cannot reach any function
+// able to hold that variable's address.
+func (ex *Exec) preservePrivateFreeVars(fr *Frame, old, cur State, keys map[string]bool, c *ssa.CallCommon) {
+	if c == nil || ex.rootFrame == nil || ex.rootFrame.fn.Parent() == nil {
+		return
+	}
+	root := ex.rootFrame.fn
+	var callees []*ssa.Function
+	if sc := c.StaticCallee(); sc != nil {
+		callees = []*ssa.Function{sc}
+	} else if node := ex.g.cg.Nodes[fr.fn]; node != nil {
+		for _, e := range node.Out {
+			if e.Site != nil && e.Site.Common() == c && e.Callee != nil && e.Callee.Func != nil {
+				callees = append(callees, e.Callee.Func)
+			}
+		}
+		if len(callees) == 0 {
+			return // unknown targets
+		}
+	} else {
+		return
+	}
+	for _, fv := range root.FreeVars {
+		pt, isPtr := fv.Type().Underlying().(*types.Pointer)
+		if !isPtr {
+			continue
+		}
+		fam := ex.g.captureFamily(fv)
+		if fam == nil {
+			continue
+		}
+		ref, ok := ex.rootFrame.vals[fv]
+		if !ok || ref.Sort != SRef {
+			continue
+		}
+		reach := false
+		for _, cal := range callees {
+			// the family's closure values never leave the declaring function (captureFamily), so
+			// only a direct call of a member can run code that holds the variable's address
+			r := fam[cal]
+			if r {
+				reach = true
+				if os.Getenv("RAINVC_DEBUG") != "" {
+					fmt.Fprintf(os.Stderr, "captured %s not preserved: %s reaches its family\n", fv.Name(), cal.String())
+				}
+				break
+			}
+		}
+		if reach {
+			continue
+		}
+		for _, lf := range ex.leaves(pt.Elem()) {
+			if !keys[lf.key] {
+				continue
+			}
+			if _, touched := cur.m[lf.key]; !touched {
+				continue
+			}
+			aso := arraySort(SRef, lf.so)
+			ov := ex.get(old, lf.key, aso)
+			nv := ex.get(cur, lf.key, aso)
+			if ov.S == nv.S {
+				continue
+			}
+			addr := T(lf.addr(ref.S), SRef)
+			ex.vc.assume(tTrue, eq(sel(nv, addr, lf.so), sel(ov, addr, lf.so)), "callee cannot reach captured variable "+fv.Name())
+		}
+	}
 }
